@@ -557,12 +557,14 @@ impl TaskEmitter {
         };
         *seq += 1;
 
-        #[cfg(rip_verif)]
-        rip_kernel::verif::point("task.publish");
-        let _ = self.sender.send(event.clone());
+        // Publish while holding the history buffer (see session::emit_event): otherwise a
+        // subscriber that subscribes and snapshots between `send` and `push` loses this frame.
         #[cfg(rip_verif)]
         rip_kernel::verif::lock_point("task.buffer", &|| self.events.try_lock().is_ok());
         let mut guard = self.events.lock().await;
+        #[cfg(rip_verif)]
+        rip_kernel::verif::point("task.publish");
+        let _ = self.sender.send(event.clone());
         guard.push(event.clone());
         let _ = self.event_log.append(&event);
     }
